@@ -49,7 +49,7 @@ class Layout(object):
              'hash_in_str', 'paren_under', 'str_bs_nl', 'semicolon', 'ifblock', 'lambda1', 'lambdas_line',
              'lambda_multiline', 'nested_def', 'triple_bs_end', 'comment_bs_then_str', 'dict_multiline',
              'nested_lambda', 'same_sig_lambdas', 'call_continuation', 'fstring_indented', 'lambda_semicolon',
-             'bytes_indented']
+             'bytes_indented', 'str_bs_nl_indented', 'str_bs_nl_indented']
     if self.features:
       feats = [f for f in feats if f in self.features]
     f = rng.choice(feats)
@@ -115,6 +115,11 @@ class Layout(object):
     elif f == 'str_bs_nl':
       self.emit(d, "s%d = 'a\\" % n)
       self.raw("b'")
+    elif f == 'str_bs_nl_indented':
+      # the continuation lines of a single-quoted string are part of the literal, whatever their indentation
+      self.emit(d, "s%d = 'head \\" % n)
+      self.emit(d + rng.choice([0, 1, 2]), "  second line \\")
+      self.emit(d + rng.choice([0, 1]), "third'")
     elif f == 'semicolon':
       self.emit(d, 'x%d = 1; y%d = 2' % (n, n))
     elif f == 'ifblock':
